@@ -34,6 +34,56 @@ fn opt(x: Tk, b: bool) -> Tk? { if b { Some(x) } else { None } }
 fn pick(e: E, d: Tk) -> Tk { match e { A(x) => x, B(q, x) if slen(q) > 1 => x, _ => d } }
 ";
 
+/// host names that exist once per token type: `X` for the sized `Tk`, `Xz` for the zero-sized `Tz`
+const TOKEN_NAMES: [(&str, &str); 9] = [
+    ("Tk", "Tz"),
+    ("mk", "mkz"),
+    ("id", "idz"),
+    ("same", "samez"),
+    ("thru", "thruz"),
+    ("name", "namez"),
+    ("maybe", "maybez"),
+    ("many", "manyz"),
+    ("count", "countz"),
+];
+
+fn rename_words(src: &str, zero: bool) -> String {
+    let mut out = String::with_capacity(src.len() + 64);
+    let mut word = String::new();
+    let flush = |word: &mut String, out: &mut String| {
+        if !word.is_empty() {
+            let hit = TOKEN_NAMES.iter().find(|p| if zero { p.0 == word.as_str() } else { p.1 == word.as_str() });
+            match hit {
+                Some(p) => out.push_str(if zero { p.1 } else { p.0 }),
+                None => out.push_str(word),
+            }
+            word.clear();
+        }
+    };
+    for c in src.chars() {
+        if c.is_alphanumeric() || c == '_' {
+            word.push(c);
+        } else {
+            flush(&mut word, &mut out);
+            out.push(c);
+        }
+    }
+    flush(&mut word, &mut out);
+    out
+}
+
+/// The zero-sized twin of a script: every use of the sized token type `Tk` and of the host
+/// functions that make / consume it becomes the zero-sized `Tz` and its functions. The two
+/// scripts have the same shape (same lets, copies, fields, arguments, returns, bindings, lists).
+pub fn zero_src(src: &str) -> String {
+    rename_words(src, true)
+}
+
+/// inverse of `zero_src`
+pub fn sized_src(src: &str) -> String {
+    rename_words(src, false)
+}
+
 pub struct Gen {
     pub rng: Prng,
     ret: Ret,
@@ -604,7 +654,8 @@ impl Gen {
                 0 => format!("{i} < {bound}"),
                 1 => {
                     self.mark("while-cond-temporaries");
-                    format!("(id(mk({i})) < {bound})")
+                    // (`+ i`: terminates also when the token carries no tag — the zero-sized twin)
+                    format!("(id(mk({i})) + {i} < {bound})")
                 }
                 2 => {
                     self.mark("while-cond-temporaries");
